@@ -611,7 +611,6 @@ pub fn run_case<T>(f: impl Future<Output = T>) -> T {
     out
 }
 
-/// Installs a panic hook that stays silent (the harness reports panics itself).
 thread_local! {
     /// source location of the most recent non-scripted panic on this thread
     static LAST_PANIC_AT: std::cell::RefCell<Option<String>> = const { std::cell::RefCell::new(None) };
@@ -622,6 +621,7 @@ pub fn last_panic_location() -> Option<String> {
     LAST_PANIC_AT.with(|l| l.borrow().clone())
 }
 
+/// Installs a panic hook that stays silent (the harness reports panics itself).
 pub fn install_quiet_panic_hook() {
     std::panic::set_hook(Box::new(|info| {
         if info.payload().is::<ScriptedPanic>() {
